@@ -731,6 +731,9 @@ NAMING_CONTEXTS = [
     {"name": "n", "output": {"prefix": "P_", "suffix": "_S", "filename": "old"}},
     {"output": {"dirname": "od", "fileext": "oe"}},
     {"name": "n", "output": {"prefix": "P_", "suffix": "_S"}},
+    # names that exist and are empty (an extension-less file in the output directory itself)
+    {"output": {"dirname": "", "fileext": ""}},
+    {"name": "n", "output": {"filename": "", "prefix": "", "suffix": ""}},
 ]
 
 
